@@ -27,7 +27,7 @@ Sels == [
             <<<<"slice", NONE, NONE, NONE>>, <<"slice", 1, NONE, NONE>>>>, <<<<"slice", NONE, NONE, NONE>>, <<"slice", NONE, NONE, -1>>>>,
             <<<<"slice", 1, NONE, NONE>>, <<"slice", NONE, -1, NONE>>>>, <<<<"all">>, <<"slice", NONE, NONE, 2>>>>,
             <<<<"int", 0>>, <<"none">>>>, <<<<"int", -1>>, <<"slice", 1, NONE, NONE>>>>, <<<<"int", 0>>, <<"int", 1>>>>,
-            <<<<"all">>, <<"none">>>>, <<<<"slice", NONE, NONE, NONE>>, <<"int", 0>>>>},
+            <<<<"all">>, <<"none">>>>, <<<<"slice", NONE, NONE, NONE>>, <<"int", 0>>>>, <<<<"slice", NONE, NONE, NONE>>, <<"int", -1>>>>},
   small |-> {<<<<"slice", 1, NONE, NONE>>, <<"none">>>>, <<<<"slice", NONE, NONE, -1>>, <<"none">>>>,
              <<<<"slice", NONE, NONE, NONE>>, <<"slice", 1, NONE, NONE>>>>, <<<<"all">>, <<"slice", NONE, NONE, 2>>>>,
              <<<<"slice", NONE, NONE, NONE>>, <<"slice", NONE, NONE, -1>>>>, <<<<"int", 0>>, <<"none">>>>, <<<<"all">>, <<"none">>>>,
